@@ -165,6 +165,13 @@ class _Num:
     def __hash__(self):
         return id(self)
 
+    # symbolic scalars are immutable values
+    def __copy__(self):
+        return self
+
+    def __deepcopy__(self, memo):
+        return self
+
 
 def _arith(a, b, op):
     """Binary arithmetic on scalars; handles NaN/inf constants explicitly."""
